@@ -31,6 +31,17 @@ class _SplitParallel(ast.NodeTransformer):
 
     def visit_Assign(self, n):
         self.generic_visit(n)
+        if len(n.targets) == 2 and {type(t) for t in n.targets} == {ast.Name, ast.Attribute}:
+            # `name = self.attr = v` (either order): one object under two names -> `self.attr = v; name = self.attr`
+            at = next(t for t in n.targets if isinstance(t, ast.Attribute))
+            nm = next(t for t in n.targets if isinstance(t, ast.Name))
+            if isinstance(at.value, ast.Name) and at.value.id == 'self' and not any(isinstance(x, ast.Name) and x.id == nm.id for x in ast.walk(n.value)):
+                a1 = ast.Assign(targets=[at], value=n.value)
+                a2 = ast.Assign(targets=[nm], value=ast.Attribute(value=ast.Name(id='self', ctx=ast.Load()), attr=at.attr, ctx=ast.Load()))
+                for a in (a1, a2):
+                    ast.copy_location(a, n)
+                    ast.fix_missing_locations(a)
+                return [a1, a2]
         if len(n.targets) == 1 and isinstance(n.targets[0], (ast.Tuple, ast.List)) and isinstance(n.value, (ast.Tuple, ast.List)) \
                 and len(n.targets[0].elts) == len(n.value.elts) and len(n.value.elts) > 1 \
                 and all(isinstance(t, (ast.Name, ast.Attribute)) for t in n.targets[0].elts) \
